@@ -9,11 +9,11 @@ def run(ctx: Ctx) -> int:
     n = ctx.pick(60, 800)
     from lib import e4_corpus
     nfixed = len(e4_corpus.corpus("c05", n, ctx.seed)) - n       # fixed programs + array-flavoured generated ones, all outside the regions
-    jobs = e4_check.jobs_for(ctx, "c05", n, batch=3, timeout=ctx.pick(240, 1200), total=n + nfixed, single_upto=12)
+    jobs = e4_check.jobs_for(ctx, "c05", n, batch=1, timeout=ctx.pick(240, 1200), total=n + nfixed, single_upto=12)
     for region, key in (("hoist-order", KEY_H), ("chain-middle", KEY_C)):
         want = ctx.pick(6, 30)
         have = len(e4_corpus.corpus("c05", want, ctx.seed, region))     # the generator may find fewer programs inside a region
-        jobs += e4_check.jobs_for(ctx, "c05", want, batch=3, timeout=ctx.pick(120, 600), region=region, key=key, total=have)
+        jobs += e4_check.jobs_for(ctx, "c05", want, batch=1, timeout=ctx.pick(120, 600), region=region, key=key, total=have)
     ctx.functions_encoded = ["cfg/builder.py: ExprBuilder.generic_visit/visit_IfExp/visit_NamedExpr/visit_Call/visit_UnaryOp, BranchBuilder.visit_BoolOp/visit_Compare/visit_IfExp/visit_UnaryOp/"
                              "generic_visit, CFGBuilder statement visitors (where expressions are built relative to the statement)",
                              "the real check() decides which corpus programs are accepted (concretely)"]
@@ -28,24 +28,24 @@ def run(ctx: Ctx) -> int:
     ctx.assumptions = ["a block's statements execute in list order, its predicate last; successors[1] = true"]
     KEY_R = "C05:reflected-comparison-evaluates-right-operand-first"
     have = len(e4_corpus.corpus("c05", 6, ctx.seed, "reflected-compare"))
-    jobs += e4_check.jobs_for(ctx, "c05", 6, batch=3, timeout=ctx.pick(200, 600), region="reflected-compare", key=KEY_R, total=have,
+    jobs += e4_check.jobs_for(ctx, "c05", 6, batch=1, timeout=ctx.pick(200, 600), region="reflected-compare", key=KEY_R, total=have,
                               harness="harness/E5_equiv.py", fn="h_equiv5")
     for region, key in (("subscript-order", "C05:subscript-of-temporary-evaluates-index-before-container"),
                         ("nested-subscript-order", "C05:nested-subscript-evaluates-outer-index-first")):
         have = len(e4_corpus.corpus("c05", 6, ctx.seed, region))
-        jobs += e4_check.jobs_for(ctx, "c05", 6, batch=3, timeout=ctx.pick(200, 600), region=region, key=key, total=have,
+        jobs += e4_check.jobs_for(ctx, "c05", 6, batch=1, timeout=ctx.pick(200, 600), region=region, key=key, total=have,
                                   harness="harness/E5_equiv.py", fn="h_equiv5")
     # stage 2 (E5): the same programs through the *checked* CFGs of the real front end (operator resolution, coercions, iterator protocol, 64-bit arithmetic)
-    jobs += e4_check.jobs_for(ctx, "c05", n, batch=3, timeout=ctx.pick(300, 1500), total=n + nfixed, harness="harness/E5_equiv.py", fn="h_equiv5", single_upto=12,
+    jobs += e4_check.jobs_for(ctx, "c05", n, batch=1, timeout=ctx.pick(300, 1500), total=n + nfixed, harness="harness/E5_equiv.py", fn="h_equiv5", single_upto=12,
                               upto=ctx.pick(30, 400))
     # stage 3 (E7): the same programs through the HUGR that /repo's back end emits for them (lib/e7.py); the two subscript-order findings are
     # decided by the back end, so they are probed at this level as well
-    jobs += e4_check.jobs_for(ctx, "c05", n, batch=3, timeout=ctx.pick(300, 1500), total=n + nfixed, harness="harness/E7_equiv.py", fn="h_equiv7", single_upto=12,
+    jobs += e4_check.jobs_for(ctx, "c05", n, batch=1, timeout=ctx.pick(300, 1500), total=n + nfixed, harness="harness/E7_equiv.py", fn="h_equiv7", single_upto=12,
                               upto=ctx.pick(30, 300))
     for region, key in (("subscript-order", "C05:subscript-of-temporary-evaluates-index-before-container"),
                         ("nested-subscript-order", "C05:nested-subscript-evaluates-outer-index-first")):
         have = len(e4_corpus.corpus("c05", 6, ctx.seed, region))
-        jobs += e4_check.jobs_for(ctx, "c05", 6, batch=3, timeout=ctx.pick(200, 600), region=region, key=key, total=have,
+        jobs += e4_check.jobs_for(ctx, "c05", 6, batch=1, timeout=ctx.pick(200, 600), region=region, key=key, total=have,
                                   harness="harness/E7_equiv.py", fn="h_equiv7")
     ctx.functions_encoded.append("stage 3: compiler/cfg_compiler.py, expr_compiler.py (visit_PlaceNode, _update_inout_ports, visit_SubscriptAccessAndDrop), stmt_compiler.py (_assign_place), "
                                  "func_compiler.py, core.py (CompilerContext.compile, track_hugr_side_effects, may_have_side_effect) and the std compilers reached by the programs: "
